@@ -10,7 +10,7 @@
    created at any time, any consumer speed (a subscriber with [dropped = false] is one on which no
    broadcast timed out). *)
 From Coq Require Import List Arith NArith Bool.
-From GS Require Import LTS Fsm FsmTable FsmRunners FsmBase FsmGraph FsmWalk FsmStream FsmResult FsmMain FsmExtra.
+From GS Require Import LTS Fsm FsmTable FsmRunners FsmBase FsmGraph FsmWalk FsmStream FsmResult FsmMain FsmExtra FsmCandidate.
 Import ListNotations.
 
 (* ---------------- the lifecycle graph (re-checked against the regenerated table) ------------- *)
@@ -210,6 +210,28 @@ Proof. exact result_composite_partial. Qed.
 Theorem C08_result_composite_refuted : exists s, creach s /\ c_run (rc s) = CPDone true Error.
 Proof. exact result_composite_refuted. Qed.
 
+(* ---------------- candidate repairs (NOT in the repository; hooks/candidate-fix-c08-*.patch) ---- *)
+(* These two theorems are about model VARIANTS prepared behind switches, i.e. about what the patches
+   would establish once applied (the repository's own unedited tests pass with either); they say nothing
+   about the code as it is. *)
+
+(* (a) finitestate: "register + read current state" atomic w.r.t. state changes ([step_fixsub], a
+   restriction of [step]): the stream is exactly s0 :: later changes - no duplicate, no stale replay. *)
+Theorem C08_candidate_a_stream : forall ls s i x,
+  run (step_fixsub fsm_cfg) init ls = Some s -> nth_error (subs s) i = Some x ->
+  dropped x = false -> sg x = SLive ->
+  read_at x = reg_at x /\
+  exists rest, got x ++ rest =
+               state_at (hist s) (read_at x) :: segment (hist s) (read_at x) (endp (length (hist s)) x).
+Proof. exact candidate_a_stream. Qed.
+
+(* (b) composite: Run keeps reloadMu from its teardown until it has returned ([composite_stepx true true]):
+   the full C08_result statement. *)
+Theorem C08_candidate_b_result : forall ls s b a,
+  run composite_fixed_rstep (rinit cctl composite_init) ls = Some s -> c_run (rc s) = CPDone b a ->
+  (a = Stopped <-> b = true) /\ (b = false -> a = Error).
+Proof. exact candidate_b_result. Qed.
+
 Print Assumptions C08_graph_documented.
 Print Assumptions C08_graph_out_of_turn_edges.
 Print Assumptions C08_graph_lifecycle_present.
@@ -239,6 +261,8 @@ Print Assumptions C08_result_http.
 Print Assumptions C08_result_cluster.
 Print Assumptions C08_result_composite_partial.
 Print Assumptions C08_result_composite_refuted.
+Print Assumptions C08_candidate_a_stream.
+Print Assumptions C08_candidate_b_result.
 
 (* non-vacuity: the hypotheses are met by concrete schedules, and the models compute *)
 
@@ -336,3 +360,20 @@ Qed.
 Example C08_ex_out_of_turn : forallb (fun p => allowedb fsm_cfg (fst p) (snd p)) out_of_turn_edges = true
                              /\ length out_of_turn_edges = 11.
 Proof. split; vm_compute; reflexivity. Qed.
+
+(* the candidate variants still run ordinary schedules, and no longer run the two findings' witnesses *)
+Example C08_ex_candidate_a :
+  (exists s x, run (step_fixsub fsm_cfg) init
+                  [LOp (OTrans Booting) true; LSub; LRead 0; LOp (OTrans Running) true; LDeliver 0;
+                   LRecv 0 Booting; LFwdTake 0; LFwdPut 0; LRecv 0 Running] = Some s /\
+               nth_error (subs s) 0 = Some x /\ got x = [Booting; Running] /\ dropped x = false /\ sg x = SLive)
+  /\ run (step_fixsub fsm_cfg) init stream_witness = None.
+Proof. exact (conj candidate_a_nonvacuous candidate_a_blocks_witness). Qed.
+
+Example C08_ex_candidate_b :
+  (exists s, run composite_fixed_rstep (rinit cctl composite_init)
+                (map RC [CRunCall; CTBooting; CCb true; CTRunning; CStopCall; CSelStop; CTStopping; CStopAllOk;
+                         CTStopped; CRunRet true; CReloadCall; CRlBegin; CRlT; CRlSetErr]) = Some s /\
+             c_run (rc s) = CPDone true Stopped /\ cur (rm s) = Error)
+  /\ run composite_fixed_rstep (rinit cctl composite_init) composite_witness = None.
+Proof. exact (conj candidate_b_nonvacuous candidate_b_blocks_witness). Qed.
